@@ -82,7 +82,7 @@ theorem canSwap_true {s : State} {c1 c2 : Int} (h : s.canSwap c1 c2 = .ok true) 
   by_cases h1 : s.isPlaced c1 = true
   · by_cases h2 : s.isPlaced c2 = true
     · by_cases h3 : c1 = c2
-      · simp [h1, h2, h3] at h
+      · simp [h2, h3] at h
       · by_cases h4 : s.isRowAllowed c1 (s.row c2) = true
         · by_cases h5 : s.isRowAllowed c2 (s.row c1) = true
           · refine ⟨(isPlaced_iff s c1).1 h1, (isPlaced_iff s c2).1 h2, h3, h4, h5, ?_⟩
@@ -176,7 +176,7 @@ theorem swap_succeeds {s : State} (h : Inv s) {c1 c2 : Int} (hl1 : s.liveCell c1
         unfold siteNext
         simp only [placeRaw, unplace, upd, updIf] at *
         unfold siteNext
-        simp only [unplace, upd, updIf] at *
+        simp only [upd, updIf] at *
         grind (splits := 20)
       unfold siteEnd
       rw [hsn]
@@ -235,7 +235,7 @@ theorem swap_succeeds {s : State} (h : Inv s) {c1 c2 : Int} (hl1 : s.liveCell c1
           unfold siteNext
           simp only [placeRaw, unplace, upd, updIf] at *
           unfold siteNext
-          simp only [unplace, upd, updIf] at *
+          simp only [upd, updIf] at *
           grind (splits := 20)
         unfold siteEnd
         rw [hsn]
